@@ -24,8 +24,8 @@ func init() {
 		ID: "C25",
 		Explanation: "Decides structural necessary conditions of exact set algebra and closure: DTX(setalg): container.Merge/Intersect are evaluated abstractly for all 16 (Inverse, empty) operand states and the symbolic result (helper, operand order, polarity) equals A∪B / A∩B on every pair of subsets of a 3-element universe; Complement flips only the polarity. MINMAX(update): the low-link updates of graph.Tarjan (which orders the closure) compare against the cell they update. " +
 			"ALIAS: at every call that fills a caller-supplied scratch buffer (p[:0] idiom, found by summary) no other operand may share storage with the buffer (field-based may-alias with reaching stores). GUARD(complcycle): an error is recorded exactly under op==complement ∧ onStack(operand), and Compute returns it. " +
-			"Not decided: the merge loops of combine/intersect/subtract, the least-fixpoint property, Tarjan itself.",
-		Rules: []string{"DTX(setalg)", "ALIAS", "GUARD(complcycle)", "MINMAX(update)", "INPLACE(write-behind-read)"},
+			"Not decided: the merge loops of combine/intersect/subtract, the least-fixpoint property, Tarjan itself. INPLACE(write-behind-read): the in-place merge loops of util/container and util/diff never append past their read cursor. KEYCOPY: interning containers store a copy of the key slice.",
+		Rules: []string{"DTX(setalg)", "ALIAS", "GUARD(complcycle)", "MINMAX(update)", "INPLACE(write-behind-read)", "GUARD(unionclone)", "KEYCOPY"},
 		Run: func(c *Ctx) {
 			ruleMINMAX(c, "util/graph", "util/set")
 			c.MinCount("MINMAX(update)", "util/graph.", 2)
@@ -82,7 +82,7 @@ func init() {
 		ID: "C06",
 		Explanation: "Decides structural necessary conditions of behaviour-preserving minimization: GUARD(entry): minimize consults Grammar.Inputs so that entry states (referenced by index from generated Parse*/lookahead functions) stay apart. GUARD(final): the initial partition consults Tables.FinalStates (reaching `end` stops the parse, which no action signature records). FIELDCOV(minimize): the rule-class key is built from LHS, RuleLen (as popped by the parser), action, node type and flags; every Tables field that holds or is indexed by state numbers is rewritten on the merge path; new Tables fields must be classified; the refinement signature contains own partition, edge symbol and target partition. " +
 			"MUSTPASS(compile-order): minimize runs after conflict resolution and before Optimize. KEYCOPY: the interning containers that partition states by signature store a copy of the signature, never the caller's (reusable) slice. AGREE(memo-key): generated code identifies a lookahead by its entry state (kept apart), never by its final state (merged with other final states). SIGNATURE(lalr-cell): each element of a lookahead state's initial signature is the Lalr cell itself or ruleClass[cell], never a constant standing for a class of cells. LOCKSTEP(rule-copy): the action id that keeps rules with different default-cast behaviour apart is stored into the lalr copy of the rule (the one minimize keys on) whenever it is stored into the grammar copy (the one applyRule is generated from). Not decided: that Moore refinement yields a behaviourally equivalent automaton on all inputs.",
-		Rules: []string{"GUARD(entry)", "GUARD(final)", "FIELDCOV(minimize)", "MUSTPASS(compile-order)", "KEYCOPY", "LOCKSTEP(rule-copy)", "SIGNATURE(lalr-cell)", "AGREE(memo-key)"},
+		Rules: []string{"GUARD(entry)", "GUARD(final)", "FIELDCOV(minimize)", "MUSTPASS(compile-order)", "KEYCOPY", "LOCKSTEP(rule-copy)", "SIGNATURE(lalr-cell)", "AGREE(memo-key)", "GUARD(optimize-la)"},
 		Run: func(c *Ctx) {
 			ruleENTRYGUARD(c)
 			ruleFINALGUARD(c)
@@ -117,9 +117,10 @@ func init() {
 		Explanation: "Decides the structural clauses of 'conflict reports are exact': GUARD(conflict-accounting): the shift/reduce counter grows by len(conflict.Next) exactly under !Resolved and CanShift, the reduce/reduce counter under !Resolved and !CanShift. DTX(reportConflicts): for all 16 combinations of (sr = %expect, rr = %expect-rr, includeResolved, verbose) the summary error at the grammar origin is raised iff a count differs; the counts are exported. " +
 			"GUARD(unionclone) + ALIAS/ESCAPE over lalr: lookahead sets kept in states never share storage with the scratch buffer that the next union overwrites. DTX(ruleAction): which resolution is recorded per conflict. DTX(lr0-shift): a state with a reduction that receives its first shift loses its 'reduce without lookahead' status on every path. MINMAX(update): the low-link updates of the SCC pass that orders the lookahead propagation (util/graph Tarjan) compare against the cell they update. " +
 			"Not decided: LR(0) closure, lookback/follow propagation, the LALR(1) sets themselves — algorithmic, out of reach for this technique.",
-		Rules: []string{"GUARD(conflict-accounting)", "DTX(reportConflicts)", "DTX(lr0-shift)", "GUARD(unionclone)", "ALIAS", "ESCAPE", "DTX(ruleAction)", "MINMAX(update)"},
+		Rules: []string{"GUARD(conflict-accounting)", "DTX(reportConflicts)", "DTX(lr0-shift)", "GUARD(unionclone)", "ALIAS", "ESCAPE", "DTX(ruleAction)", "MINMAX(update)", "SENTINEL(allTokensMarker)"},
 		Run: func(c *Ctx) {
 			ruleMINMAX(c, "util/graph", "lalr", "util/container", "util/sparse")
+			ruleSENTINELIDX(c)
 			c.MinCount("MINMAX(update)", "util/graph.", 2)
 			ruleCONFLICTCOUNT(c)
 			ruleREPORTCONFLICTS(c)
@@ -152,7 +153,7 @@ func init() {
 		ID: "C09",
 		Explanation: "Decides structural necessary conditions of longest-match-with-priority tables: DTX(accept-priority): in a DFA state the accepted rule is replaced only by a rule of strictly higher precedence, equal precedence with a different action is an error. FIELDCOV(checkpoint): backtracking checkpoints are shared only between transitions with the same target state and the same accepted action, and carry that action. " +
 			"CODEC(lexdfa): the writer's three cell classes (state, checkpoint k = -1-k, accept = -1-action shifted below the checkpoints) are produced under the right tests; Tables.Scan reads Backtrack[-1-cell] only for actionStart < cell < 0, computes actionStart-cell only for cell <= actionStart (also on the end-of-input transition), and prefers a recorded checkpoint over the invalid action. " +
-			"Not decided: subset construction, epsilon closure, symbol-class compression.",
+			"Not decided: subset construction, epsilon closure, symbol-class compression. PAIR(checkpoint): recording a backtracking checkpoint records both the accepted action and the offset (Tables.Scan and the generated lexers).",
 		Rules: []string{"DTX(accept-priority)", "FIELDCOV(checkpoint)", "CODEC(lexdfa)", "PAIR(checkpoint)"},
 		Run: func(c *Ctx) {
 			ruleACCEPTPRIO(c)
@@ -207,7 +208,7 @@ func init() {
 		ID: "C11",
 		Explanation: "Decides structural necessary conditions of 'generated Go lexers tokenize as specified': AGREE(hash): the keyword hash computed by the generator (gen.stringHash) uses the multiplier and the scan unit (rune in rune mode, byte in bytes mode) of the hash the generated lexer accumulates. LINECOL/CURSOR/PROGRESS as in C12 (positions, line and column of each token). FIELDCOV(checkpoint) + CODEC(lexdfa) writer side as in C09 (the tables the lexer is generated from). " +
 			"RESET(checkpoint): the checkpoint does not survive a restart. CODEC(runemap): generated mapRune and lex.CompressedMap agree that entries cover [lo, hi). " +
-			"Not decided: token sequences as such; byte-mode and large-Unicode-map template branches are not instantiated by any shipped lexer.",
+			"Not decided: token sequences as such; byte-mode and large-Unicode-map template branches are not instantiated by any shipped lexer. PAIR(checkpoint): backupRule, backupOffset and backupHash are recorded together.",
 		Rules: []string{"AGREE(hash)", "LINECOL", "CURSOR", "PROGRESS", "FIELDCOV(checkpoint)", "CODEC(lexdfa)", "PAIR(checkpoint)", "CODEC(runemap)", "RESET(checkpoint)"},
 		Run: func(c *Ctx) {
 			ruleRUNEMAP(c)
@@ -228,8 +229,8 @@ func init() {
 		ID: "C22",
 		Explanation: "Decides structural necessary conditions of 'the grammar compiler never crashes and reports in-range diagnostics': EXIT: the process-exit/panic sites reachable (call graph from compiler.Compile, restricted to packages the compiler links) equal an audited table, each line with the invariant that keeps grammar text away from it; a new site fails as unaudited. STAGEGATE: each pipeline stage of compileParser runs only if the previous one returned no error. ASSERTTY: every unchecked type assertion on an option value asserts the type of that option's default. " +
 			"CYCLE: no unbounded recursion over cyclic token sets. ESCAPE: validation data is not kept in a recycled scratch buffer. CURSOR: the grammar lexer (parsers/tm) never reads l.source past its end and never advances the cursor unguarded. UNITS(bytes): no rune-counting value flows into SourceRange offsets/columns. GUARD(optimize-la), DTX(rune-fold): the obligations cited by audited exit sites. " +
-			"Not decided: index-out-of-range and nil dereference on malformed models in general, line/column consistency beyond the unit rule.",
-		Rules: []string{"EXIT", "STAGEGATE", "ASSERTTY", "OPTIONMAP", "CYCLE", "ESCAPE", "CURSOR", "UNITS(bytes)", "GUARD(optimize-la)", "DTX(rune-fold)"},
+			"Not decided: index-out-of-range and nil dereference on malformed models in general, line/column consistency beyond the unit rule. GUARD(lookup-index): a slice is indexed with the result of a comma-ok map lookup only on the ok path (no panic after a 'not a valid category reference' diagnostic). CYCLE(memo): a hit of the in-progress marker of longestPhrase's memo never reaches the recursive call (an unbounded lookahead is a diagnostic, not a stack overflow). GUARD(valid-anchor): a diagnostic is anchored at an optional syntax node only under IsValid() (it always carries a location). OPTIONMAP and MUSTPASS(compile-order) as in C05.",
+		Rules: []string{"EXIT", "STAGEGATE", "ASSERTTY", "OPTIONMAP", "CYCLE", "ESCAPE", "CURSOR", "UNITS(bytes)", "GUARD(optimize-la)", "DTX(rune-fold)", "CYCLE(memo)", "GUARD(lookup-index)", "GUARD(valid-anchor)", "MUSTPASS(compile-order)"},
 		Run: func(c *Ctx) {
 			ruleLOOKUPIDX(c, "syntax", "compiler", "grammar", "gen", "lalr", "lex")
 			ruleMEMOCYCLE(c, "compiler", "syntax", "lalr", "grammar")
@@ -265,8 +266,8 @@ func init() {
 		ID: "C01",
 		Explanation: "Decides structural necessary conditions of 'generated parsers accept exactly the language' across table writers (lalr/) and readers (the five committed generated parsers and js's hand-written parse loop): CODEC(parser): every read of the packed table is guarded by 0 <= pos < tmTableLen, -2-action is used as a state only for action < -1, rule tables are indexed only with action >= 0. SIBLING(gotoState): the generated default-encoding gotoState has the same comparisons, index arithmetic and returns as lalr.(*DefaultEnc).gotoState. ENTRY: the i-th exported Parse* starts in state i with a final state that is not an entry state. " +
 			"GUARD(markerfree): RuleLen counts only non-marker symbols. CODEC(optimize), GUARD(usedBase), GUARD(dedupe), GUARD(entry), FIELDCOV(minimize), MUSTPASS(compile-order), MUSTPASS(nonassoc-rewrite): the writers keep the encodings consistent. FRESH(lookahead): every read of p.next in each parse() is dominated by a definition made in the same call (no stale lookahead on a reused Parser). RESET(histogram): reused counter slices of Optimize/pickDefault are zeroed per state. PERITEM(flag): boolean fields of per-item records (Input.NoEoi, ...) are not carried around the loop that builds them. " +
-			"Not decided: correctness of the LR(0)/LALR construction and of the shift/reduce loop as algorithms; the error-location clause.",
-		Rules: []string{"CODEC(parser)", "SIBLING(gotoState)", "DTX(lr0-shift)", "ENTRY", "GUARD(markerfree)", "CODEC(optimize)", "GUARD(usedBase)", "GUARD(dedupe)", "GUARD(entry)", "GUARD(final)", "FIELDCOV(minimize)", "MUSTPASS(compile-order)", "MUSTPASS(nonassoc-rewrite)", "FRESH(lookahead)", "TYPESTATE(lookahead)", "RESET(histogram)", "PERITEM(flag)"},
+			"Not decided: correctness of the LR(0)/LALR construction and of the shift/reduce loop as algorithms; the error-location clause. TYPESTATE(lookahead): positions of p.next are read only while a lookahead is fetched. DTX(lr0-shift): a state with a reduction that gains a shift consults the lookahead. GUARD(final): minimize keeps final states apart from ordinary states. DTX(assocmap)/LOCKSTEP(precGroup)/GUARD(optimize-la) run as part of the shared precedence and compile-order rules (see C04, C05).",
+		Rules: []string{"CODEC(parser)", "SIBLING(gotoState)", "DTX(lr0-shift)", "ENTRY", "GUARD(markerfree)", "CODEC(optimize)", "GUARD(usedBase)", "GUARD(dedupe)", "GUARD(entry)", "GUARD(final)", "FIELDCOV(minimize)", "MUSTPASS(compile-order)", "MUSTPASS(nonassoc-rewrite)", "FRESH(lookahead)", "TYPESTATE(lookahead)", "RESET(histogram)", "PERITEM(flag)", "DTX(assocmap)", "GUARD(optimize-la)", "LOCKSTEP(precGroup)"},
 		Run: func(c *Ctx) {
 			ruleTABLEIDX(c)
 			ruleGOTOSIBLING(c)
@@ -332,7 +333,7 @@ func init() {
 	register(&Property{
 		ID: "C20",
 		Explanation: "Decides structural necessary conditions of 'parse events form a well-nested tree': VARIANT(flush-after-extend): in recoverFromError the error node is flushed only after its range was extended over pending invalid tokens (otherwise tokens inside the node are reported after it). VARIANT(trim-trailing-empty): every parse loop that trims trailing empty symbols does so in a loop (all of them), so a node never runs into following whitespace/comments that are still pending. " +
-			"STACKIDX: reported ranges are non-empty sub-ranges of the rule. Not decided: the tree builder, nesting under recovery in general. INITCOV: every field of Lexer/Parser/TokenStream that another method modifies is assigned on every path by Init (or by the first block of parse()), so no run state of an earlier input (pending tokens of a cancelled parse) reaches the next input's event stream; four audited exemptions.",
+			"STACKIDX: reported ranges are non-empty sub-ranges of the rule. Not decided: the tree builder, nesting under recovery in general. INITCOV: every field of Lexer/Parser/TokenStream that another method modifies is assigned on every path by Init (or by the first block of parse()), so no run state of an earlier input (pending tokens of a cancelled parse) reaches the next input's event stream; four audited exemptions. INITCOV: every field of Lexer/Parser/TokenStream that another method modifies is assigned on every path by Init (or by the first block of parse()), so no run state of an earlier input (pending tokens of a cancelled parse) reaches the next input's event stream; audited exemptions are listed in the rule.",
 		Rules: []string{"INITCOV", "VARIANT", "STACKIDX"},
 		Run: func(c *Ctx) {
 			ruleINITCOV(c, "TokenStream", "Lexer", "Parser")
@@ -347,8 +348,8 @@ func init() {
 		ID: "C07",
 		Explanation: "Decides structural necessary conditions of 'LALR(k) resolution never changes the language': CODEC(deep-pointer): lookahead pointers are encoded as -3-offset by every writer (trie emitter, populateTables, the Lalr patch) and decoded as -action-3 by every reader (Optimize, minimize's partitioning, each generated lalr()), and generated parse loops treat action < -2 as a pointer. MUSTPASS(trie-id): a minimized trie node receives its id before it is published in the shared cache. " +
 			"DTX(resolved-flag): a conflict is marked resolved only if no lookahead terminal failed (the flag only moves from true to false inside the terminal loop); UsedLADepth is raised with every patched pointer. GUARD(optimize-la): tables with pointers are not handed to Optimize. ORDER: the trie's map iterations are sorted (C18). GUARD(terminal-follow): both phases of buildLA (in-rule and cross-rule) contribute to the follow sets of terminal transitions when follow sets hold transitions (k>1). LOOPSHAPE(collect-all): the loops that gather a rule's transitions on the conflict terminal run to exhaustion. WHOCALLS(Lexer.Next): the deep-lookahead loop (like every parser-side fetch) reads tokens through the filter that drops injected comment/invalid tokens. " +
-			"Not decided: soundness of the trie (which rule a lookahead string selects).",
-		Rules: []string{"CODEC(deep-pointer)", "MUSTPASS(trie-id)", "DTX(resolved-flag)", "GUARD(optimize-la)", "GUARD(terminal-follow)", "WHOCALLS(Lexer.Next)", "LOOPSHAPE(collect-all)"},
+			"Not decided: soundness of the trie (which rule a lookahead string selects). MUSTPASS(compile-order): lookahead resolution runs after the tables are populated and before conflicts are reported.",
+		Rules: []string{"CODEC(deep-pointer)", "MUSTPASS(trie-id)", "DTX(resolved-flag)", "GUARD(optimize-la)", "GUARD(terminal-follow)", "WHOCALLS(Lexer.Next)", "LOOPSHAPE(collect-all)", "MUSTPASS(compile-order)"},
 		Run: func(c *Ctx) {
 			ruleCOLLECTALL(c)
 			ruleWHOCALLS(c)
@@ -381,7 +382,7 @@ func init() {
 	register(&Property{
 		ID: "C17",
 		Explanation: "Decides structural necessary conditions of 'generation completes and the generated Go code builds' on the template trees (parsed with text/template/parse, never executed, so option branches no shipped grammar instantiates are covered): TMPLGUARD: in parser.go/parser_tables.go/stream.go templates, node-type identifiers (NodeType/NodeFlags via nodeTypeRef…, node_id) appear only under guards implying .Parser.Types. TMPL(threshold): a numeric threshold tested by two Go templates is tested identically (helper emitted iff called). " +
-			"TMPLNAMES: every {{template}} resolves and every pipeline function is registered. ERRGUARD: a return taken because error E is non-nil returns E (gen.Generate and the compiler packages). Not decided: the option x feature space as a whole; Go type-correctness of un-instantiated branches.",
+			"TMPLNAMES: every {{template}} resolves and every pipeline function is registered. ERRGUARD: a return taken because error E is non-nil returns E (gen.Generate and the compiler packages). Not decided: the option x feature space as a whole; Go type-correctness of un-instantiated branches. PAIR(intern): the idx, ok := m[k]; if !ok { idx = len(list); append } idiom records idx under k (no duplicate node types, which would be redeclared constants in listener.go). AGREE(session): (*Grammar).NeedsSession, evaluated for every assignment of the options that guard members of the template's session struct, is true exactly when lookaheads exist and a member exists (a use site never names a member that parse() declared as a local).",
 		Rules: []string{"TMPLGUARD", "TMPL(threshold)", "TMPLNAMES", "ERRGUARD", "PAIR(intern)", "AGREE(session)"},
 		Run: func(c *Ctx) {
 			ruleINTERN(c, "syntax", "compiler", "grammar", "gen", "lalr", "lex")
@@ -398,8 +399,8 @@ func init() {
 	register(&Property{
 		ID: "C21",
 		Explanation: "Decides, for the shipped typed ASTs (js, tm; parsers/test/ast is a stale directory that test.tm no longer generates), that no accessor's type assertion can fail and the node factory is total: EXHAUST: the factory switch has a case for every NodeType constant. IMPL: for every accessor, every node type admitted by the last selector of its navigation chain (categories expanded through the generated category lists) and NilNode implement the asserted interface (go/types.Implements), and struct wrappers T{child} are used only with single-type selectors equal to T. " +
-			"TMPL(step-scope): the template emits each chain step's selector name from the step itself. Not decided: other grammars (type inference in syntax/types.go is algorithmic), 'every child is reachable through an accessor'.",
-		Rules: []string{"EXHAUST", "IMPL", "TMPL(step-scope)"},
+			"TMPL(step-scope): the template emits each chain step's selector name from the step itself. Not decided: other grammars (type inference in syntax/types.go is algorithmic), 'every child is reachable through an accessor'. PAIR(save-restore): typeCollector.nontermPhrase reads c.referrer after the descent only behind the store that restores it (the low-link of a cycle reaches the entry nonterminal, whose fields become lists). FIELDCOV(minimize): every component of the rule-class key, node type and flags included, is filled on every path (states reporting different node types are not merged).",
+		Rules: []string{"EXHAUST", "IMPL", "TMPL(step-scope)", "FIELDCOV(minimize)", "PAIR(save-restore)"},
 		Run: func(c *Ctx) {
 			ruleSAVERESTORE(c, "syntax", "compiler", "gen", "grammar")
 			ruleMINIMIZE(c)
@@ -424,7 +425,7 @@ func init() {
 	register(&Property{
 		ID: "C28",
 		Explanation: "Decides structural necessary conditions of 'symbol names map to valid, distinct identifiers': REGISTER: every site in package compiler that creates a grammar.Symbol with an identifier looks it up in resolver.ids, raises the 'get the same ID' error under exactly the outcome 'already taken' (no further condition), and registers the same identifier (audited exception: mid-rule nonterminals). " +
-			"GUARD(leading-digit): ident.Produce inserts the underscore for a leading digit based on what has been written so far (buf.Len() == 0 inside the rune loop). Not decided: non-emptiness and validity of Produce's output in general (string computation).",
+			"GUARD(leading-digit): ident.Produce inserts the underscore for a leading digit based on what has been written so far (buf.Len() == 0 inside the rune loop). Not decided: non-emptiness and validity of Produce's output in general (string computation). GUARD(explicit-id): an explicit lexeme id is used verbatim only on the false edge of strings.ContainsFunc(id, unicode.IsLower); otherwise it goes through ident.Produce(id, UpperCase).",
 		Rules: []string{"REGISTER", "GUARD(leading-digit)", "GUARD(explicit-id)"},
 		Run:   func(c *Ctx) { ruleREGISTER(c); ruleLEADINGDIGIT(c); ruleEXPLICITID(c) },
 	})
@@ -434,8 +435,8 @@ func init() {
 	register(&Property{
 		ID: "C13",
 		Explanation: "Decides one structural necessary condition of 'desugaring preserves the language': DTX(expr-equal): Expand reuses an already extracted nonterminal for a sub-expression (lists, optionals, nested choices) when names match and (*Expr).Equal says the expressions are the same; the check evaluates Equal abstractly for every expression kind and requires that a difference in any component of the kind (symbol, arguments, every sub-expression including a list's separator, list flags, names, arrow flags, predicate, set index) makes it false and identical components make it true. " +
-			"LOOPSHAPE(marker-transparent): markers never hide symbols of a rule. Not decided: the expansion rules themselves (which productions a list/optional/choice turns into) — language equivalence of those is algorithmic and out of reach for this technique; two of the four independently seeded C13/C14 regressions are of that kind and are not detected (recorded in DESIGN.md).",
-		Rules: []string{"DTX(expr-equal)", "SIBLING(list-recursion)", "LOOPSHAPE(marker-transparent)"},
+			"LOOPSHAPE(marker-transparent): markers never hide symbols of a rule. Not decided: the expansion rules themselves (which productions a list/optional/choice turns into) — language equivalence of those is algorithmic and out of reach for this technique; two of the four independently seeded C13/C14 regressions are of that kind and are not detected (recorded in DESIGN.md). SIBLING(list-recursion): every rule Expand builds for a list places the recursive reference (and the separator) on the side the RightRecursive flag asks for; a placement that does not consult the flag is a violation.",
+		Rules: []string{"DTX(expr-equal)", "SIBLING(list-recursion)", "LOOPSHAPE(marker-transparent)", "BOUNDARY(terminals)"},
 		Run: func(c *Ctx) {
 			ruleEXPREQUAL(c)
 			ruleLISTRECURSION(c)
@@ -446,7 +447,7 @@ func init() {
 	register(&Property{
 		ID: "C14",
 		Explanation: "Decides structural necessary conditions of 'template instantiation preserves meaning': DTX(predicate): the predicate evaluator of conditional alternatives computes or / and / not / equals (all truth assignments of two operands, bound value equal or not). ESCAPE: the per-nonterminal required-flag sets of PropagateLookaheads are not kept in a recycled buffer (a lost 'flag is never provided' diagnostic ends in a process exit). CYCLE/SHARED: instantiating and renumbering token-set expressions terminates on cyclic sets and touches shared nodes once. DTX(expr-equal) as in C13. " +
-			"Not decided: argument propagation and the instantiation work-list themselves.",
+			"Not decided: argument propagation and the instantiation work-list themselves. BOUNDARY(terminals): every comparison of a symbol with the terminal count cuts exactly at the first nonterminal (44 sites; `sub > 0` would skip the first declared nonterminal when lookahead flags are propagated). MUSTPASS(conditional-outermost): convertRules applies the [predicate] wrapper last, so a disabled alternative is the direct child of the Choice that Instantiate prunes. ESCAPE also follows slices into callees that keep them (set.Closure.Add) and treats buffers captured by closures as refilled.",
 		Rules: []string{"DTX(predicate)", "ESCAPE", "CYCLE", "SHARED", "DTX(expr-equal)", "BOUNDARY(terminals)", "MUSTPASS(conditional-outermost)"},
 		Run: func(c *Ctx) {
 			rulePREDICATE(c)
